@@ -35,7 +35,8 @@ pub const N_ADDR: usize = N_ACTORS + 2;
 pub const N_SENDERS: usize = N_ACTORS + 1;
 /// index 3 is a denom nobody is ever granted, index 4 a different denom that differs from index 0 only in
 /// letter case
-const DENOMS: [&str; 5] = ["uatom", "ubtc", "ueth", "zzz", "UATOM"];
+// (the last one is shorter than a bank denomination may be: the proxy keeps books in whatever it is told)
+const DENOMS: [&str; 6] = ["uatom", "ubtc", "ueth", "zzz", "UATOM", "ux"];
 const VALIDATORS: [&str; 2] = ["valoper-one", "valoper-two"];
 const CHANNELS: [&str; 2] = ["channel-0", "channel-7"];
 const TYPE_URLS: [&str; 2] = ["/cosmos.bank.v1beta1.MsgSend", "/cosmos.authz.v1beta1.MsgExec"];
@@ -223,14 +224,14 @@ fn addr_ix() -> BoxedStrategy<u8> {
 }
 /// denom of a coin inside a message
 fn denom_ix() -> BoxedStrategy<Den> {
-    prop_oneof![20 => any::<u16>().prop_map(Den::Held), 8 => (0u8..3).prop_map(Den::Ix), 2 => Just(Den::Ix(3)), 1 => Just(Den::Ix(4))].boxed()
+    prop_oneof![20 => any::<u16>().prop_map(Den::Held), 8 => (0u8..3).prop_map(Den::Ix), 2 => Just(Den::Ix(3)), 1 => (4u8..6).prop_map(Den::Ix)].boxed()
 }
 fn denom_grant() -> BoxedStrategy<Den> {
     // (index 4: `UATOM`, another denomination than `uatom`)
-    prop_oneof![6 => any::<u16>().prop_map(Den::Held), 16 => (0u8..3).prop_map(Den::Ix), 2 => Just(Den::Ix(3)), 1 => Just(Den::Ix(4))].boxed()
+    prop_oneof![6 => any::<u16>().prop_map(Den::Held), 16 => (0u8..3).prop_map(Den::Ix), 2 => Just(Den::Ix(3)), 1 => (4u8..6).prop_map(Den::Ix)].boxed()
 }
 fn denom_decrease() -> BoxedStrategy<Den> {
-    prop_oneof![24 => any::<u16>().prop_map(Den::Held), 6 => (0u8..3).prop_map(Den::Ix), 2 => Just(Den::Ix(3)), 1 => Just(Den::Ix(4))].boxed()
+    prop_oneof![24 => any::<u16>().prop_map(Den::Held), 6 => (0u8..3).prop_map(Den::Ix), 2 => Just(Den::Ix(3)), 1 => (4u8..6).prop_map(Den::Ix)].boxed()
 }
 fn bytes() -> BoxedStrategy<Vec<u8>> {
     proptest::collection::vec(any::<u8>(), 0..5).boxed()
@@ -790,6 +791,12 @@ impl<'a> Builder<'a> {
             MsgSpec::SetWithdrawAddress { to } => CosmosMsg::Distribution(DistributionMsg::SetWithdrawAddress { address: self.addr(*to) }),
             MsgSpec::WithdrawReward { val } => CosmosMsg::Distribution(DistributionMsg::WithdrawDelegatorReward { validator: self.val(*val) }),
             MsgSpec::FundCommunityPool { coins } => CosmosMsg::Distribution(DistributionMsg::FundCommunityPool { amount: self.coins(coins, false) }),
+            // (addressed to the proxy itself, a short payload stands for a well-formed call back into the proxy:
+            // Execute with one bank send of 1 uatom to actor 0, nothing attached)
+            MsgSpec::WasmExecute { to, payload, .. } if *to as usize == N_ADDR && payload.len() <= 2 => {
+                let inner: CosmosMsg = CosmosMsg::Bank(BankMsg::Send { to_address: self.w.addrs[0].clone(), amount: vec![Coin::new(1u128, DENOMS[0])] });
+                CosmosMsg::Wasm(WasmMsg::Execute { contract_addr: self.addr(*to), msg: cosmwasm_std::to_json_binary(&SubExec::<Empty>::Execute { msgs: vec![inner] }).unwrap(), funds: vec![] })
+            }
             MsgSpec::WasmExecute { to, payload, coins } => CosmosMsg::Wasm(WasmMsg::Execute { contract_addr: self.addr(*to), msg: Binary::from(payload.clone()), funds: self.coins(coins, false) }),
             MsgSpec::WasmInstantiate { admin, code_id, payload, coins } => CosmosMsg::Wasm(WasmMsg::Instantiate { admin: admin.map(|a| self.addr(a)), code_id: *code_id, msg: Binary::from(payload.clone()), funds: self.coins(coins, false), label: "proxy-child".to_string() }),
             MsgSpec::WasmInstantiate2 { admin, code_id, payload, coins, salt } => CosmosMsg::Wasm(WasmMsg::Instantiate2 { admin: admin.map(|a| self.addr(a)), code_id: *code_id, label: "proxy-child".to_string(), msg: Binary::from(payload.clone()), funds: self.coins(coins, false), salt: Binary::from(salt.clone()) }),
@@ -1414,6 +1421,27 @@ fn check_c08(w: &World, s: &Step, ok: bool, pre: &Obs, post: &Obs, at: &str, ctx
                         return Err(v(prop, "relayed-exceeds-granted", format!("{at}: sender{} has now relayed {r} {denom} but admins only ever granted it {g}", s.sender)));
                     }
                 }
+                // a relayed call back into the proxy is carried out by the chain with the proxy as sender (and the
+                // whole transaction stands or falls with it): whatever bank sends that inner call relays left the
+                // proxy on this subkey's behalf without being charged to its allowance
+                for m in msgs {
+                    if let CosmosMsg::Wasm(WasmMsg::Execute { contract_addr, msg, .. }) = m {
+                        if *contract_addr == w.d.contract.as_str() {
+                            if let Ok(SubExec::<Empty>::Execute { msgs: inner }) = cosmwasm_std::from_json::<SubExec<Empty>>(msg) {
+                                let mut copy = w.d.clone();
+                                let me = w.d.contract.clone();
+                                if let Ok(r) = exec_on(&mut copy, w.subkeys, &me, &Call::Execute(inner)) {
+                                    let out: Vec<CosmosMsg> = r.messages.iter().map(|sm| sm.msg.clone()).collect();
+                                    let through = send_totals(&out);
+                                    ctx.count("self_call_carried_out");
+                                    if !through.is_empty() {
+                                        return Err(v(prop, "relayed-through-self-call", format!("{at}: the subkey's call was accepted with a call back into the proxy, which (carried out with the proxy as sender) relays {:?} - native tokens leaving the proxy on this subkey's behalf that are not charged to its allowance {:?}", through, p.bal)));
+                                    }
+                                }
+                            }
+                        }
+                    }
+                }
                 allow_changer = Some(s.sender);
                 if !d.is_empty() {
                     ctx.flag("spend_ok");
@@ -1674,12 +1702,12 @@ fn d_den(u: &mut arbitrary::Unstructured, w: [u32; 3]) -> Den {
     match d_arm(u, &w) {
         0 => Den::Held(d_sel(u)),
         1 => Den::Ix(arb_below(u, 3) as u8),
-        _ => if arb_bool(u, 1, 3) { Den::Ix(4) } else { Den::Ix(3) },
+        _ => if arb_bool(u, 1, 3) { Den::Ix(4 + arb_below(u, 2) as u8) } else { Den::Ix(3) },
     }
 }
 fn d_den_msg(u: &mut arbitrary::Unstructured) -> Den {
     if arb_bool(u, 1, 31) {
-        return Den::Ix(4);
+        return Den::Ix(4 + arb_below(u, 2) as u8);
     }
     d_den(u, [10, 4, 1])
 }
